@@ -62,7 +62,8 @@ Proof.
                                 destruct B as [B|B]; [left; rewrite Ho; discriminate|right; exact B]].
   - intros sd0. destruct (Bool.bool_dec sd0 sd) as [->|Hne].
     + (* the side of the event *)
-      destruct (C sd) as [c1 c2 c3 c4]. constructor; rewrite ?Hsame; try (unfold x'; cbn [w_chg w_ex s_otype s_force s_oid]; assumption).
+      destruct (C sd) as [c1 c2 c3 c5 c4]. constructor; rewrite ?Hsame; try (unfold x'; cbn [w_chg w_ex s_otype s_force s_oid]; assumption).
+      * unfold x'. cbn [w_chg w_ex s_oid]. rewrite Ho. discriminate.
       * unfold x'. cbn [w_chg w_ex s_oid]. rewrite Ho. discriminate.
       * unfold x'. cbn [w_chg w_ex s_oid]. intros o Ho'. destruct (c4 o Ho') as (k1 & ob1 & -> & Hob1 & Hk1 & F).
         assert (k1 = k) by (apply ostr_k_inj; congruence). subst k1.
@@ -89,7 +90,7 @@ Proof.
            ++ repeat (split; [assumption|]). exists k', ob'. rewrite Hobj. auto.
     + (* the other side *)
       assert (sd0 = negb sd) by (destruct sd0, sd; try reflexivity; contradiction). subst sd0.
-      destruct (C (negb sd)) as [c1 c2 c3 c4]. constructor; rewrite ?Hoth; auto.
+      destruct (C (negb sd)) as [c1 c2 c3 c5 c4]. constructor; rewrite ?Hoth, ?Hign; auto.
       intros o Ho'. destruct (c4 o Ho') as (k1 & ob1 & -> & Hob1 & Hk1 & F).
       exists k1, ob1. split; [reflexivity|]. split; [rewrite Hobj; exact Hob1|]. split; [exact Hk1|].
       assert (Hpd1: pd evl (negb sd) k1 = true -> pd evl' (negb sd) k1 = true) by (apply Hpd; left; destruct sd; discriminate).
@@ -230,7 +231,6 @@ Proof.
     + reflexivity.
     + apply IdxJ_dirty, IdxJ_tape. apply J1. exact HI0.
     + intros x sd0 _. reflexivity.
-    + intros sd0. apply (i_notmp _ _ _ I).
     + intros x xn Hne Hx2 Hxn sd0 k0 Hk0. split; [reflexivity|]. split; [|reflexivity].
       destruct (Bool.bool_dec sd0 sd) as [->|Hns]; [|rewrite (pd_set_other _ _ _ _ _ Hns); auto].
       rewrite pd_set_same. unfold pd. rewrite Hevl, existsb_cons. intros Hp. apply orb_prop in Hp as [Hp|Hp]; [|exact Hp].
@@ -311,7 +311,6 @@ Proof.
     + reflexivity.
     + apply IdxJ_dirty, IdxJ_tape. apply J1. exact HI0.
     + intros x sd0 _. reflexivity.
-    + intros sd0. apply (i_notmp _ _ _ I).
     + intros x xn Hne Hx2 Hxn sd0 k0 Hk0. split; [reflexivity|]. split; [|reflexivity].
       destruct (Bool.bool_dec sd0 sd) as [->|Hns]; [|rewrite (pd_set_other _ _ _ _ _ Hns); auto].
       rewrite pd_set_same. unfold pd. rewrite Hevl, existsb_cons. intros Hp. apply orb_prop in Hp as [Hp|Hp]; [|exact Hp].
@@ -357,7 +356,7 @@ Proof.
               assert (Hlt: (k < length (ProvModel.p_heap (prov_of w sd)))%nat) by (apply nth_error_Some; unfold obj_at in Hob; congruence).
               destruct (i_cove _ _ _ I sd k Hk Hlt Hg) as (x & xn & Hxn & Hox). apply (Hnone x xn Hxn Hox).
         -- assert (sd0 = negb sd) by (destruct sd0, sd; try reflexivity; contradiction). subst sd0.
-           constructor; rewrite Hgo; cbn [new_side s_otype s_force s_oid s_chg s_path s_hash s_spath s_shash tchg]; try reflexivity.
+           constructor; rewrite Hgo; cbn [new_side s_otype s_force s_oid s_chg s_path s_hash s_spath s_shash s_ex tchg]; try reflexivity.
            ++ intros _. repeat split.
            ++ intros o Ho'. discriminate.
 Qed.
@@ -417,7 +416,6 @@ Proof.
   - intros sd0. apply (ShapeOk_ext w w' sd0 (Hobj sd0) (i_shape _ _ _ I sd0)).
   - intros sd0. apply (LogOk_ext evl evl w w' sd0 (Hobj sd0)); [auto|apply (i_log _ _ _ I)].
   - intros e en He. destruct (i_clke _ _ _ I e en He) as (A & B). split; [exact A|]. intros sd0. rewrite Hgx. apply B.
-  - intros e sd0. rewrite Hgx. apply (i_notmp _ _ _ I).
   - intros sd0 k Hk Hlt. rewrite Hheap in Hlt. apply (i_cov _ _ _ I sd0 k Hk Hlt).
   - intros e en He Hen. apply (EntOk_frame evl evl g g w w' e en (i_ents _ _ _ I e en He Hen)); [intros; rewrite Hgx; reflexivity|].
     intros sd0 k Ho. split; [apply Hobj|]. split; [auto|reflexivity].
